@@ -75,6 +75,19 @@ def correspondence(ctx):
         f2 = rng.choice(NAMES) if rng.random() < 0.5 else rng.choice(NAMES) + ' or ' + rng.choice(NAMES)
         desc = ''.join(rng.choice('ABC xyz,,..<>-+é日\U00020000') for _ in range(rng.randrange(0, 12)))
         lines.append(f'{f1},{f2},{desc}' + ('\n' if rng.random() < 0.5 else ''))
+    # over-long hexadecimal fields: 9-20 digits whose LOW 32 bits are a valid code point (a wrapping accumulator would
+    # accept them), values just above u32::MAX, long zero-padded valid ones; alone and at either end of a range
+    longs = []
+    for v in (0x41, 0, 0x10FFFF, 0x5A, 0x200D):
+        for hi in (1, 0xF, 0x10, 0x100, 0xFFFFFFFF, 0x1000000000, rng.randrange(1, 1 << 40)):
+            longs.append(f'{(hi << 32) | v:X}')
+        longs.append(f'{v:012X}')
+        longs.append(f'{v:020X}')
+    longs += ['100000000', 'FFFFFFFFF', '10000000000000000', '1' + '0' * 31 + '41']
+    for h in longs:
+        lines.append(f'{h},PVALID,x')
+        lines.append(f'{h}-10FFFF,PVALID,x')
+        lines.append(f'0000-{h},DISALLOWED,x')
     for p in NAMES:
         lines.append(f'0041,{p},x')
         for q in NAMES:
